@@ -78,6 +78,12 @@ def _events(shape):
     else:
         mutate("s_masked", "x[slice(1, 2)] = np.ma.masked", "r = np.ma.masked_array(r); r[slice(1, 2)] = np.ma.masked")
         setitem("s_daskint", "da.from_array(np.array([0, 2]), chunks=1)", "-12.0", nkey="np.array([0, 2])")
+    # a dask index array / value array that outlives the assignment and is itself
+    # updated in place afterwards: the earlier assignment must not change
+    mutate("s_sharedidx", "x[kidx] = -13.0", "r[ridx] = -13.0")
+    mutate("m_idx", "kidx[0] = 1", "ridx[0] = 1")
+    mutate("s_sharedval", "x[0:2] = kval", "r[0:2] = rval")
+    mutate("m_val", "kval[0] = -99.0", "rval[0] = -99.0")
     mutate("o_add", "np.add(x, 1, out=x)", "np.add(r, 1, out=r)")
     mutate("o_sin", "np.sin(x, out=x)", "np.sin(r, out=r)")
     mutate("o_where", "da.add(x, 1000, where=x > 12, out=x)", "np.add(r, 1000, where=r > 12, out=r)")
@@ -113,7 +119,9 @@ def run_history(src, names, out=None):
     fp_stored = [fingerprint(s) for s in stored]
     evs = {e["name"]: e for e in _events(tuple(src["shape"]))}
     derived, drefs, dnames = [], [], []
-    env = {"da": da, "np": np, "x": x, "r": r, "derived": derived}
+    ridx = np.array([0, 2])[: max(1, min(2, a.shape[0]))] if a.ndim else np.array([0])
+    rval = (np.arange(2.0)[: a.shape[0]].reshape((-1,) + (1,) * (a.ndim - 1)) * np.ones(a.shape[1:]) + 700) if a.ndim else np.array(700.0)
+    env = {"da": da, "np": np, "x": x, "r": r, "derived": derived, "ridx": ridx.copy(), "kidx": da.from_array(ridx.copy(), chunks=1), "rval": rval.copy(), "kval": da.from_array(rval.copy(), chunks=1)}
     desc = []
     for nm in names:
         e = evs[nm]
@@ -167,6 +175,10 @@ def run_history(src, names, out=None):
             return None, f
         for d, ref, nm in zip(derived, drefs, dnames):
             f = cmp(d.compute(scheduler="sync"), ref, f"derived:{nm}-then-" + "+".join(n for n in names[names.index(nm) + 1:] if evs[n]["kind"] == "mutate"))
+            if f:
+                return None, f
+        for dn, rn in (("kidx", "ridx"), ("kval", "rval")):
+            f = cmp(env[dn].compute(scheduler="sync"), env[rn], f"{dn}-after-" + "+".join(n for n in names if evs[n]["kind"] == "mutate"))
             if f:
                 return None, f
         # name / keys / to_delayed consistent with the current expression
@@ -230,7 +242,7 @@ def plan(tier, seed):
         "coverage": {
             "exhaustive": True,
             "bounds": {"history_length": L, "events": len(_events((6,))), "sources": len(srcs), "length4_compact_alphabet": len(COMPACT) if tier != "quick" else 0},
-            "rule": "all event histories of length <= L from the reset state over {derive (slice, reverse, elemwise, reduction, transpose, rechunk, copy, mask), x[key]=value for int / negative int / slice / stepped / negative-step / list / Ellipsis / NumPy mask / dask mask / dask int array / tuple keys x scalar / 0-d / row / full-shape / dask-array / masked values, ufunc out=x, where= with out=x, +=, compute / keys / graph / to_delayed / persist / pickle touches}; after each history every pool member computes to its reference, keys and to_delayed agree with compute, sources untouched; plus a layout sweep: every mutating event (history length 1 quick, 2 thorough) on every chunking of (6,) and (2,3). Non-trivial = history with a derivation before a mutation",
+            "rule": "all event histories of length <= L from the reset state over {derive (slice, reverse, elemwise, reduction, transpose, rechunk, copy, mask), x[kidx]=v / x[0:2]=kval with a dask index / value array that is itself updated in place later (kidx[0]=1, kval[0]=-99), x[key]=value for int / negative int / slice / stepped / negative-step / list / Ellipsis / NumPy mask / dask mask / dask int array / tuple keys x scalar / 0-d / row / full-shape / dask-array / masked values, ufunc out=x, where= with out=x, +=, compute / keys / graph / to_delayed / persist / pickle touches}; after each history every pool member computes to its reference, keys and to_delayed agree with compute, sources untouched; plus a layout sweep: every mutating event (history length 1 quick, 2 thorough) on every chunking of (6,) and (2,3). Non-trivial = history with a derivation before a mutation",
         },
         "assumptions": ["reference model: NumPy arrays with copy semantics at derivation", "synchronous scheduler"],
     }
